@@ -415,6 +415,16 @@ def conc_models(cfgs):
     return MB, MMs
 
 
+def guarded(res, case, fn, *a):
+    """an exception while judging one job must not discard the failures already collected for the others"""
+    try:
+        return fn(*a)
+    except Exception as ex:  # reported, never swallowed
+        import traceback
+        res.corr_failures.append({"relation": "check-machinery", "what": "exception while judging this job: " + repr(ex)[:200] + " | " + traceback.format_exc()[-300:], "case": case})
+        return None
+
+
 def run(tier, seed, model_ok=True):
     res = C.Result()
     res.rule = RULE
@@ -439,14 +449,16 @@ def run(tier, seed, model_ok=True):
                 jobs.append((N, p, sch, lo, min(n, lo + chunk)))
     jobs.sort(key=lambda j: -(j[0] * j[1]) * (j[4] - j[3]))
     for j, sr in zip(jobs, C.pmap(lambda j: run_bcast(binary, *j, sim_seed=seed), jobs)):
-        check_bcast_job(res, j[0], j[1], j[2], j[3], j[4], sr, MB, model_ok)
+        guarded(res, {"N": j[0], "p": j[1], "kind": "single", "scheme": j[2], "lo": j[3], "hi": j[4]},
+                check_bcast_job, res, j[0], j[1], j[2], j[3], j[4], sr, MB, model_ok)
     res.exhaustive = True
     # ---- (2) concurrency
     cfgs = conc_configs(tier, seed)
     CB, CMs = conc_models(cfgs) if model_ok else ({}, [dict() for _ in cfgs])
     outs = C.pmap(lambda co: run_conc(binary, co[0]), cfgs)
     for (cfg, ops), sr, MM in zip(cfgs, outs, CMs):
-        check_conc(res, cfg, sr, ops, CB, MM, model_ok)
+        guarded(res, dict({k: cfg[k] for k in ("N", "p", "routing", "buffer_kb", "policy", "sim_seed", "script")}, kind="conc"),
+                check_conc, res, cfg, sr, ops, CB, MM, model_ok)
     res.notes.append(f"{len(lays)} layouts, {len(jobs)} single-broadcast jobs, {len(cfgs)} concurrent programs, seed {seed}")
     return res
 
